@@ -232,6 +232,36 @@ def r04_16(run, model, mir, front_extra=()):
     run.floor("functions with an explicit panic site (control)", len(pan), 40)
 
 
+def r04_17(run, model):
+    run.rule("R04.17", "every expression form the type checker can hand over is compiled or diagnosed: no arm of compile_expr's match on the "
+                       "typed expression is an unconditional panic (the typer builds method nodes for a method path in any position, not "
+                       "only as the function of a call)")
+    CM = "crates/compiler/src/compile_match.rs"
+    f = model.fn("compile_expr", CM)
+    ms = list(S.find(f.body, "Match"))
+    if not ms:
+        raise AnalysisIncomplete("compile_expr: match on the expression not found")
+    n = 0
+    for arm in ms[0]["arms"]:
+        n += 1
+        body = arm["body"]
+        stmts = body.get("stmts") if body["k"] == "Block" else None
+        only = body
+        if stmts is not None and len(stmts) == 1:
+            only = stmts[0].get("expr") or stmts[0]
+        elif stmts is not None and stmts:
+            only = None
+        dead = only is not None and only["k"] == "Macro" and re.search(r"\b(panic|unreachable|todo|unimplemented)$", str(only.get("name") or only.get("path") or ""))
+        head = S.norm_ws(run.facts.text(CM, arm["pat"]["sp"]))
+        head = re.sub(r"\{.*", "", head)
+        if dead:
+            run.ob("R04.17", f"compile_expr|{head} is compiled or diagnosed", False, site(CM, arm["sp"]), "the arm is an unconditional panic",
+                   witness="let g = P::get; (a method path used as a value) passes the type checker and panics in compile_match: "
+                           "`EInherentMethod should only appear as the function in ECall`")
+    run.ob("R04.17", "compile_expr|no arm is an unconditional panic", True, site(CM, ms[0]["sp"]), f"{n} arms examined")
+    run.floor("arms of compile_expr examined", n, 20)
+
+
 def r04_7(run, model, only_files=None):
     from lib import bounds as B
     run.rule("R04.7", "hand-written scanners never index past the end: every `bytes[E]` / `tokens[E]` in the lexer's multi-line string scanner, the "
@@ -377,6 +407,7 @@ def run(run, model):
     run.try_rule(r04_4, model, mir)
     run.try_rule(r04_5, model, mir)
     run.try_rule(r04_16, model, mir)
+    run.try_rule(r04_17, model)
     run.try_rule(r04_7, model)
     run.try_rule(r04_8, model)
     run.try_rule(r04_10, model, an)
